@@ -210,54 +210,7 @@ func runC01(c *Ctx) {
 	}
 	c.Floor(rExh, 5, "ProcessCondition constants")
 
-	// ------------------------------------------------------------------
-	rLatch := c.Rule("case-waits-on-right-latch", "in the case of condition c every path blocks on the latch of c (done / procReadyCtx / procLogReadyCtx / procStartedChan) of the dependency looked up by the depends_on key, and a negative result returns a non-nil error")
-	table := condLatchTable(p)
-	cs := func(n string) string { x, _ := constString(p.Const("types", n)); return x }
-	for _, name := range SortedKeys(group) {
-		val := group[name]
-		k, known := table[val]
-		if !known {
-			continue
-		}
-		for _, ec := range have[val] {
-			region := CaseRegion(ec.Target)
-			prims := s.WaitPrims(k)
-			c.Touch(prims...)
-			primSite := CallOfFn("wait("+k.String()+")", prims...)
-			deep := p.Deep(Or("wait", primSite, s.waitSite(k)))
-			var waitCall *ssa.Call
-			vis, left := ReachWithin(ec.Target, region, func(in ssa.Instruction) bool {
-				if deep.MustAt(in) {
-					if cc, ok := in.(*ssa.Call); ok && waitCall == nil {
-						waitCall = cc
-					}
-					return true
-				}
-				return false
-			})
-			_ = vis
-			if len(prims) == 0 {
-				c.Bad(rLatch, "case:"+name+":wait", p.InstrPos(ec.If), "no Process method blocks on "+k.String())
-				continue
-			}
-			if !c.Check(!left && waitCall != nil, rLatch, "case:"+name+":wait", p.InstrPos(ec.If),
-				"every path of the case blocks on "+k.String(), "a path through the case for "+name+" does not block on "+k.String()) {
-				continue
-			}
-			// receiver is the looked-up dependency: result of a *Process-returning call whose argument is the range key
-			rcv := ReceiverOf(&waitCall.Call)
-			c.Check(rcv != nil && s.isDepLookup(rcv, gate), rLatch, "case:"+name+":on-dependency", p.InstrPos(waitCall),
-				"wait is performed on the dependency looked up by the depends_on key", "the wait is not performed on the process looked up by the depends_on key")
-			// result-bearing cases
-			switch val {
-			case cs("ProcessConditionCompletedSuccessfully"):
-				s.checkNegativeResult(c, rLatch, "case:"+name+":nonzero-exit-is-error", gate, waitCall, region, "int")
-			case cs("ProcessConditionHealthy"), cs("ProcessConditionLogReady"):
-				s.checkNegativeResult(c, rLatch, "case:"+name+":not-ready-is-error", gate, waitCall, region, "bool")
-			}
-		}
-	}
+	s.checkGateCases(c, gate, "case-waits-on-right-latch", true)
 
 	// ------------------------------------------------------------------
 	rWait := c.Rule("wait-returns-only-when-released", "a completion wait returns only through the branch on which done was read true (loop form), and the boolean ready-waits return true only on the branch that observed success")
@@ -342,15 +295,7 @@ func runC01(c *Ctx) {
 		c.PathCheck(r, rReg, p.FuncKey(sp), FirstPos(p, sp), "registration dominates the go statement", "the process goroutine can be started before the instance is registered in runningProcesses")
 	}
 
-	rFind := c.Rule("skipped-is-findable", "on every path of the process goroutine the instance is inserted into doneProcesses before it is removed from runningProcesses (otherwise a dependent spawned later finds no dependency and is launched ungated)")
-	for _, g := range s.ProcGo {
-		addDone := p.Deep(MapUpdateOn("insert doneProcesses", s.FDoneProcs))
-		del := p.Deep(MapDeleteOn("delete runningProcesses", s.FRunning))
-		r := NeverBetween(Entry(g), addDone.MustAt, del, nil)
-		c.PathCheck(r, rFind, p.FuncKey(g), FirstPos(p, g), "doneProcesses insertion precedes the removal from runningProcesses on every path",
-			"a path removes the instance from runningProcesses without having registered it in doneProcesses (skip path)")
-	}
-	c.Floor(rFind, 1, "process goroutine")
+	s.checkSkippedFindable(c, "skipped-is-findable")
 }
 
 func isOneOf(in ssa.Instruction, set []ssa.Instruction) bool {
@@ -627,4 +572,80 @@ func alwaysBeforeNilReturn(f *ssa.Function, d *Deep) bool {
 		}
 	}
 	return true
+}
+
+// checkGateCases (C01, C05): per condition the right latch is awaited on the
+// looked-up dependency and a negative result becomes an error return.
+func (s *Sel) checkGateCases(c *Ctx, gate *ssa.Function, ruleID string, all bool) {
+	p := c.P
+	isCond := func(v ssa.Value) bool { return PathOf(v).LastField() == s.FCondition }
+	cases := EqCasesOn(gate, isCond)
+	have := map[string][]EqCase{}
+	for _, ec := range cases {
+		have[ec.Const] = append(have[ec.Const], ec)
+	}
+	group := p.ConstGroup("types", "ProcessCondition")
+	rLatch := c.Rule(ruleID, "in the case of condition c every path blocks on the latch of c (done / procReadyCtx / procLogReadyCtx / procStartedChan) of the dependency looked up by the depends_on key, and a negative result returns a non-nil error")
+	table := condLatchTable(p)
+	cs := func(n string) string { x, _ := constString(p.Const("types", n)); return x }
+	for _, name := range SortedKeys(group) {
+		val := group[name]
+		k, known := table[val]
+		if !known {
+			continue
+		}
+		for _, ec := range have[val] {
+			region := CaseRegion(ec.Target)
+			prims := s.WaitPrims(k)
+			c.Touch(prims...)
+			primSite := CallOfFn("wait("+k.String()+")", prims...)
+			deep := p.Deep(Or("wait", primSite, s.waitSite(k)))
+			var waitCall *ssa.Call
+			vis, left := ReachWithin(ec.Target, region, func(in ssa.Instruction) bool {
+				if deep.MustAt(in) {
+					if cc, ok := in.(*ssa.Call); ok && waitCall == nil {
+						waitCall = cc
+					}
+					return true
+				}
+				return false
+			})
+			_ = vis
+			if len(prims) == 0 {
+				c.Bad(rLatch, "case:"+name+":wait", p.InstrPos(ec.If), "no Process method blocks on "+k.String())
+				continue
+			}
+			if !c.Check(!left && waitCall != nil, rLatch, "case:"+name+":wait", p.InstrPos(ec.If),
+				"every path of the case blocks on "+k.String(), "a path through the case for "+name+" does not block on "+k.String()) {
+				continue
+			}
+			// receiver is the looked-up dependency: result of a *Process-returning call whose argument is the range key
+			rcv := ReceiverOf(&waitCall.Call)
+			c.Check(rcv != nil && s.isDepLookup(rcv, gate), rLatch, "case:"+name+":on-dependency", p.InstrPos(waitCall),
+				"wait is performed on the dependency looked up by the depends_on key", "the wait is not performed on the process looked up by the depends_on key")
+			// result-bearing cases
+			switch val {
+			case cs("ProcessConditionCompletedSuccessfully"):
+				s.checkNegativeResult(c, rLatch, "case:"+name+":nonzero-exit-is-error", gate, waitCall, region, "int")
+			case cs("ProcessConditionHealthy"), cs("ProcessConditionLogReady"):
+				s.checkNegativeResult(c, rLatch, "case:"+name+":not-ready-is-error", gate, waitCall, region, "bool")
+			}
+		}
+	}
+
+	c.Floor(rLatch, 8, "gate cases")
+}
+
+// checkSkippedFindable (C01, C05).
+func (s *Sel) checkSkippedFindable(c *Ctx, ruleID string) {
+	p := c.P
+	rFind := c.Rule(ruleID, "on every path of the process goroutine the instance is inserted into doneProcesses before it is removed from runningProcesses (otherwise a dependent spawned later finds no dependency and is launched ungated)")
+	for _, g := range s.ProcGo {
+		addDone := p.Deep(MapUpdateOn("insert doneProcesses", s.FDoneProcs))
+		del := p.Deep(MapDeleteOn("delete runningProcesses", s.FRunning))
+		r := NeverBetween(Entry(g), addDone.MustAt, del, nil)
+		c.PathCheck(r, rFind, p.FuncKey(g), FirstPos(p, g), "doneProcesses insertion precedes the removal from runningProcesses on every path",
+			"a path removes the instance from runningProcesses without having registered it in doneProcesses (skip path)")
+	}
+	c.Floor(rFind, 1, "process goroutine")
 }
